@@ -585,6 +585,15 @@ def dominating_env(fn, stmt, cap=1500, keep=(), deep=True):
                         env[t.id] = val
                     else:
                         env.pop(t.id, None)
+            elif isinstance(st, ast.Assign) and len(st.targets) == 1 and isinstance(st.targets[0], (ast.Tuple, ast.List)) \
+                    and all(isinstance(t, ast.Name) for t in st.targets[0].elts) and not isinstance(st.value, (ast.Tuple, ast.List)):
+                # unpacking of a computed value: element i of it
+                val = subst(st.value, env) if deep else st.value
+                for i, t in enumerate(st.targets[0].elts):
+                    if _size(val) * len(st.targets[0].elts) <= cap and t.id not in keep:
+                        env[t.id] = ast.Subscript(value=val, slice=ast.Constant(value=i), ctx=ast.Load())
+                    else:
+                        env.pop(t.id, None)
             elif isinstance(st, ast.Assign) and all(isinstance(t, ast.Name) for t in st.targets):
                 val = subst(st.value, env) if deep else st.value
                 for t in st.targets:
